@@ -242,6 +242,9 @@ class ProgBase(plumpy.Process):
             return plumpy.UnsuccessfulResult(ret[1])
         if kind == 'kill':
             # (text None: the bare ``Kill()`` command, without any message)
+            if ret[1] == '@NOTEXT':
+                # a message that says how, not why: it has no text of its own (and must keep having none)
+                return Kill(MessageBuilder.kill(force_kill=True))
             return Kill() if ret[1] is None else Kill(MessageBuilder.kill(text=ret[1]))
         if kind == 'raise':
             raise (ProgKeyError if str(ret[1]).startswith('key:') else ProgError)(ret[1])
@@ -489,7 +492,7 @@ def expected_run(program, resume_values=()):
         elif kind == 'unsucc':
             final = ('finished', {'result': ret[1], 'successful': False})
         elif kind == 'kill':
-            final = ('killed', {'text': ret[1]})
+            final = ('killed', {'text': None if ret[1] == '@NOTEXT' else ret[1]})
         elif kind == 'raise':
             final = ('excepted', {'tag': ret[1]})
         break
